@@ -1,19 +1,28 @@
 """Thorough tier: mutant self-test of the rules.
 
-Each rule module lists single-edit mutants of /repo's *current* sources (anchored on a unique source fragment; a
-mutant whose anchor is gone is recorded as skipped, never as a pass). The edit is applied to a scratch copy under
-/tmp (removed afterwards), the copy is re-extracted with the same flags (a mutant that does not parse is an error
-of the catalogue), the property's rules are run on it and the named rule instance must be reported. An undetected
-mutant means the checker is broken (exit 2). Nothing is executed; this tests the analysis, not btcdeb.
+Each rule module lists single-edit mutants of /repo's *current* sources:
+  * MUTANTS       - hand-written catalogue, anchored on a unique source fragment (find/replace, optionally regex);
+  * AUTO_MUTANTS  - a function(ctx) that *enumerates* mutants from the fact base (one per rule instance: every limit
+                    comparison, every stack guard, every gate label, every history operation ...), anchored on
+                    file:line:col of the resolved AST node and verified against the source text at that position.
+A mutant whose anchor is gone is recorded as skipped, never as a pass. Each edit is applied to a scratch copy under /tmp
+(removed afterwards), the copy is re-extracted with the same flags (a mutant that does not parse is an error of the
+catalogue), the property's rules are run on it and a rule instance with the expected key prefix must newly fail. An
+undetected mutant means the checker is broken (exit 2). Nothing is executed; this tests the analysis, not btcdeb.
+Mutants are processed by a small pool of worker processes, each with its own scratch copy.
 """
+import importlib
 import os
 import re
 import shutil
 import subprocess
 import tempfile
+from concurrent.futures import ProcessPoolExecutor
 
 from . import facts as F
 from . import engines, report
+
+WORKERS = 4
 
 
 def _copy_tree(dst):
@@ -21,56 +30,72 @@ def _copy_tree(dst):
                            "--exclude", "*.la", "--exclude", ".libs", "--exclude", ".deps", "--exclude", "autom4te.cache",
                            "--exclude", "/btcdeb", "--exclude", "/btcc", "--exclude", "/tap", "--exclude", "/test-btcdeb",
                            "--exclude", "secp256k1/src", F.REPO + "/", dst + "/"])
-    # headers of secp256k1 are needed by includes
     os.makedirs(os.path.join(dst, "secp256k1"), exist_ok=True)
     if not os.path.exists(os.path.join(dst, "secp256k1/include")):
         shutil.copytree(os.path.join(F.REPO, "secp256k1/include"), os.path.join(dst, "secp256k1/include"))
 
 
-def run_mutants(pid, mod, ctx):
-    muts = getattr(mod, "MUTANTS", [])
+def _apply(m, orig):
+    """-> new text or (None, why)"""
+    if "edit" in m:
+        line, col, old, new = m["edit"]
+        lines = orig.split("\n")
+        if line < 1 or line > len(lines):
+            return None, "line %d out of range" % line
+        ln = lines[line - 1]
+        if ln[col - 1:col - 1 + len(old)] != old:
+            # the node's column may point at the start of a larger expression: search the token on that line from col-1
+            idx = ln.find(old, max(0, col - 1))
+            if idx < 0 or ln.count(old) > 1 and m.get("strict_col"):
+                return None, "text %r not at %d:%d" % (old, line, col)
+            col = idx + 1
+        lines[line - 1] = ln[:col - 1] + new + ln[col - 1 + len(old):]
+        return "\n".join(lines), None
+    if m.get("regex"):
+        hits = len(re.findall(m["find"], orig, flags=re.S))
+    else:
+        hits = orig.count(m["find"])
+    if hits != 1:
+        return None, "anchor matched %d times in %s" % (hits, m["file"])
+    new = re.sub(m["find"], m["replace"], orig, count=1, flags=re.S) if m.get("regex") else orig.replace(m["find"], m["replace"], 1)
+    return new, None
+
+
+def _worker(args):
+    pid, modname, muts, base_failed, seed = args
+    mod = importlib.import_module(modname)
     results = []
-    if not muts:
-        ctx.extra["mutants"] = {"catalogue": 0}
-        return
     scratch = tempfile.mkdtemp(prefix="verif-scratch.%d." % os.getpid(), dir="/tmp")
     try:
         _copy_tree(scratch)
         for m in muts:
             path = os.path.join(scratch, m["file"])
             orig = open(os.path.join(F.REPO, m["file"])).read()
-            if m.get("regex"):
-                hits = len(re.findall(m["find"], orig, flags=re.S))
-            else:
-                hits = orig.count(m["find"])
-            if hits != 1:
-                results.append(dict(name=m["name"], status="skipped", why="anchor matched %d times in %s" % (hits, m["file"])))
+            new, why = _apply(m, orig)
+            if new is None:
+                results.append(dict(name=m["name"], status="skipped", why=why))
                 continue
-            new = re.sub(m["find"], m["replace"], orig, count=1, flags=re.S) if m.get("regex") else orig.replace(m["find"], m["replace"], 1)
             with open(path, "w") as fh:
                 fh.write(new)
             try:
                 mpath, th, fresh = F.extract_all(scratch, use_cache=False)
                 fb = F.Facts(mpath)
                 prog = engines.Program(fb)
-                mctx = report.Ctx(pid, "thorough", fb, prog, ctx.seed)
+                mctx = report.Ctx(pid, "thorough", fb, prog, seed)
+                note = None
                 try:
                     mod.run(mctx)
-                    failed = {i["rule"] + ":" + i["key"] for i in mctx.instances if not i["ok"]}
-                    status_extra = None
                 except F.AnalysisBroken as e:
-                    failed = set()
-                    status_extra = "analysis-broken: %s" % e
-                base_failed = {i["rule"] + ":" + i["key"] for i in ctx.instances if not i["ok"]}
+                    note = "analysis-broken: %s" % e
+                failed = {i["rule"] + ":" + i["key"] for i in mctx.instances if not i["ok"]}
                 new_fail = sorted(failed - base_failed)
-                want = m["expect"]
-                hit = [k for k in new_fail if any(k.startswith(w) for w in want)]
+                hit = [k for k in new_fail if any(k.startswith(w) for w in m["expect"])]
                 if hit:
                     results.append(dict(name=m["name"], status="killed", by=hit[:3]))
-                elif status_extra and m.get("broken_ok"):
-                    results.append(dict(name=m["name"], status="killed", by=[status_extra]))
+                elif note and m.get("broken_ok"):
+                    results.append(dict(name=m["name"], status="killed", by=[note]))
                 else:
-                    results.append(dict(name=m["name"], status="SURVIVED", new_failures=new_fail[:5], note=status_extra))
+                    results.append(dict(name=m["name"], status="SURVIVED", new_failures=new_fail[:5], note=note))
                 shutil.rmtree(os.path.dirname(mpath), ignore_errors=True)
             except F.AnalysisBroken as e:
                 results.append(dict(name=m["name"], status="error", why=str(e)[:300]))
@@ -79,8 +104,36 @@ def run_mutants(pid, mod, ctx):
                     fh.write(orig)
     finally:
         shutil.rmtree(scratch, ignore_errors=True)
-    ctx.extra["mutants"] = {"catalogue": len(muts), "killed": len([r for r in results if r["status"] == "killed"]),
+    return results
+
+
+def run_mutants(pid, mod, ctx):
+    muts = list(getattr(mod, "MUTANTS", []))
+    auto = getattr(mod, "AUTO_MUTANTS", None)
+    nauto = 0
+    if auto is not None:
+        am = auto(ctx)
+        nauto = len(am)
+        muts += am
+    if not muts:
+        ctx.extra["mutants"] = {"catalogue": 0}
+        return
+    base_failed = {i["rule"] + ":" + i["key"] for i in ctx.instances if not i["ok"]}
+    chunks = [muts[i::WORKERS] for i in range(WORKERS)]
+    chunks = [c for c in chunks if c]
+    results = []
+    with ProcessPoolExecutor(max_workers=len(chunks)) as ex:
+        for r in ex.map(_worker, [(pid, mod.__name__, c, base_failed, ctx.seed) for c in chunks]):
+            results.extend(r)
+    order = {m["name"]: i for i, m in enumerate(muts)}
+    results.sort(key=lambda r: order.get(r["name"], 0))
+    ctx.extra["mutants"] = {"catalogue": len(muts), "hand_written": len(muts) - nauto, "enumerated_from_fact_base": nauto,
+                            "killed": len([r for r in results if r["status"] == "killed"]),
                             "skipped": len([r for r in results if r["status"] == "skipped"]), "results": results}
+    hand = {m["name"] for m in muts[:len(muts) - nauto]}
+    stale = [r for r in results if r["status"] == "skipped" and r["name"] in hand]
+    if stale:
+        raise F.AnalysisBroken("mutant catalogue is stale (anchor gone, the tree changed): %s - refresh the catalogue" % ", ".join(r["name"] for r in stale))
     bad = [r for r in results if r["status"] in ("SURVIVED", "error")]
     if bad:
-        raise F.AnalysisBroken("mutant self-test: %s" % "; ".join("%s %s %s" % (r["name"], r["status"], r.get("why") or r.get("new_failures")) for r in bad))
+        raise F.AnalysisBroken("mutant self-test: %s" % "; ".join("%s %s %s" % (r["name"], r["status"], r.get("why") or r.get("new_failures")) for r in bad[:6]))
